@@ -91,16 +91,10 @@ func (w *World) Apply(op Op, style NodeStyle) Outcome {
 		err := w.B.RegisterNode(eventlogger.NodeID(op.ID), n, policyOpts(true, op.Policy)...)
 		out.RealOK, out.RealErr = err == nil, err
 		out.ModelOK, out.ModelSet = w.M.RegisterNode(op.ID, n, op.Policy), true
-		if err != nil && op.Policy != "" && !validPolicy(op.Policy) && !errors.Is(err, eventlogger.ErrInvalidParameter) {
-			out.Mismatch = "invalid policy rejected without ErrInvalidParameter"
-		}
 	case "regpipe":
 		err := w.B.RegisterPipeline(eventlogger.Pipeline{PipelineID: eventlogger.PipelineID(op.Pid), EventType: eventlogger.EventType(op.Type), NodeIDs: toNodeIDs(op.IDs)}, policyOpts(false, op.Policy)...)
 		out.RealOK, out.RealErr = err == nil, err
 		out.ModelOK, out.ModelSet = w.M.RegisterPipeline(op.Type, op.Pid, op.IDs, op.Policy), true
-		if err != nil && op.Policy != "" && !validPolicy(op.Policy) && !errors.Is(err, eventlogger.ErrInvalidParameter) {
-			out.Mismatch = "invalid policy rejected without ErrInvalidParameter"
-		}
 	case "rmpipe":
 		err := w.B.RemovePipeline(eventlogger.EventType(op.Type), eventlogger.PipelineID(op.Pid))
 		out.RealOK, out.RealErr = err == nil, err
